@@ -109,7 +109,7 @@ def dateFixed (h : Hist) (hd : Header) (t1 : Int) : Header :=
 
 /-- the ghost of the entry read by the foreground of exchange `n` -/
 def Hist.ghostAt (h : Hist) (n : Nat) : Option Spec.Stored :=
-  if !h.faults.isEmpty || !h.own.isEmpty || h.cls == "concurrent" || h.cls == "inval-race" then none else
+  if !h.faults.isEmpty || !h.own.isEmpty || h.cls == "concurrent" || h.cls == "inval-race" || h.cls == "reval-race" then none else
   let rec go (evs : List Ev) (m : List (Str × Option Spec.Stored)) : Option Spec.Stored :=
     match evs with
     | [] => none
